@@ -331,6 +331,7 @@ func genOnce(r *Rand, pkg string, prof Profile) *Spec {
 		ctxP = prof.CtxOdds
 	}
 	g.sp.MultiVarSets = r.Chance(1, 3)
+	g.sp.SetsElsewhere = r.Chance(1, 4)
 	treeRoot := -1
 	if shape == "tree" {
 		budget := 3 + r.Intn(8)
